@@ -512,6 +512,7 @@ def check(chk):
 
     _more_rules(chk, repo)
     _time_string_parsers(chk, repo)
+    _raw_state_readers(chk, repo)
 
 
 def _more_rules(chk, repo):
@@ -749,6 +750,25 @@ def _more_rules(chk, repo):
            text="events_to_post[state] append")
 
 
+def _raw_state_readers(chk, repo):
+    """OWN-6b: `switch.hw_state` is the raw level last reported by the hardware, `switch.state` the logical (NC-corrected) state.
+    Everything that decides about handlers, events and queries reads the logical state; the raw level is read only where hardware
+    reports are compared with each other (tabled).  A decision made on the raw level is wrong for every normally-closed switch."""
+    from sa.index import get_index
+    idx = get_index(repo)
+    ALLOWED = {("mpf/platforms/fast/communicators/net_neuron.py", "FastNetNeuronCommunicator.update_switches_from_hw_data"):
+               "compares two raw reports of the same board to find changes; the change itself goes through process_switch_by_num"}
+    n = 0
+    for u in idx.uses("hw_state"):
+        if u.store:
+            continue
+        n += 1
+        ok = (u.relpath, u.scope) in ALLOWED
+        chk.ob("OWN-6", "the raw hardware level `hw_state` is read only where raw reports are compared (%s)" % u.scope, ok, u.where(),
+               detail="decisions use the logical `state`; on an NC switch the raw level is the opposite", construct=u.ident, text="hw_state read in " + u.scope)
+    chk.ob("OWN-6", "reads of hw_state examined", n >= 1, "mpf/core/switch_controller.py:1", detail=str(n), nontrivial=False)
+
+
 def _time_string_parsers(chk, repo):
     from sa.helpers import rescaled_time_strings
     bad, n = rescaled_time_strings(repo, ("mpf/devices/switch.py", "mpf/core/switch_controller.py", "mpf/plugins/switch_player.py"))
@@ -817,6 +837,7 @@ def battery():
         M("twin: is_active delegates", SC, "        if ms:\n            return switch.state == 1 and ms <= switch.get_ms_since_last_change()\n\n        return switch.state == 1\n", "        return self.is_state(switch, 1, ms)\n", None),
         M("twin: == platform guard", SC, "                if switch.platform != platform:\n                    continue\n                try:\n                    switch.state = switch_states[number] ^ switch.invert\n                except (IndexError, KeyError):", "                if switch.platform == platform:\n                  try:\n                    switch.state = switch_states[number] ^ switch.invert\n                  except (IndexError, KeyError):", None),
         M("unit-less hold time of a configured switch event read as seconds", SW, "            ms = Util.string_to_ms(ev_time)", "            ms = int(Util.string_to_secs(ev_time) * 1000)", "UNIT-1"),
+        M("switch query answers from the raw level", SC, "            return switch.state == state and ms <= switch.get_ms_since_last_change()", "            return switch.hw_state == state and ms <= switch.get_ms_since_last_change()", "OWN-6"),
     ]
 
 
